@@ -442,6 +442,13 @@ pub fn run_c10(out: &mut Out, rng: &mut Rng, thorough: bool, only: Option<&str>)
                 s.whole(d);
             }
         }
+        // around and above the maximum, up to the saturated length counter: too large is never waivable
+        for (j, len) in [c[2] - 5, c[2] - 4, c[2] - 3, c[2], 0xffff_fff0, 0xffff_fffb, 0xffff_fffc].into_iter().enumerate() {
+            let mut st = craft_state(*v, rng, j);
+            st.len = len;
+            s.inject(1, &st);
+            s.fin(1);
+        }
         for j in 0..(if thorough { 40 } else { 8 }) {
             let mut st = craft_state(*v, rng, 10 + 12 * j); // sparse recipes
             st.len = *rng.pick(&[c[0] - 5, c[0] - 4, c[1] - 5, c[1] - 4, 1000]);
@@ -549,6 +556,98 @@ pub fn run_agg(out: &mut Out, rng: &mut Rng, thorough: bool, only: Option<&str>)
                     }
                 }
             }
+        }
+    }
+}
+
+// ---- real multi-GiB histories (C11 thorough, C03 thorough) ------------------------
+
+impl<'a> Session<'a> {
+    /// feed `n` bytes of the periodic stream starting at stream position `off`
+    /// natively (in pieces of varied size), then log ONE event for the segment
+    pub fn update_periodic(&mut self, i: usize, pat: &[u8], off: u64, n: u64, rng: &mut Rng, one_slice: bool) {
+        let mut allocs = 0;
+        let mut panic = String::new();
+        if one_slice {
+            // a single update() call with the whole segment (needs n bytes of address space)
+            let buf: Vec<u8> = if pat.iter().all(|&b| b == 0) {
+                vec![0u8; n as usize] // lazily zero-filled pages
+            } else {
+                (0..n).map(|t| pat[((off + t) % pat.len() as u64) as usize]).collect()
+            };
+            let o = self.gens[i].as_mut().expect("live").update(&buf);
+            allocs += o.a;
+            panic = o.p;
+        } else {
+            const CHUNK: usize = 64 << 20;
+            let p = pat.len();
+            // a buffer holding whole periods, so that any piece is a window of it
+            let reps = CHUNK / p + 2;
+            let buf: Vec<u8> = (0..reps * p).map(|t| pat[t % p]).collect();
+            let mut done = 0u64;
+            while done < n {
+                let want = *rng.pick(&[1usize, 3, 4096, 1 << 20, 7 << 20, CHUNK]);
+                let k = (want as u64).min(n - done) as usize;
+                let start = ((off + done) % p as u64) as usize;
+                let o = self.gens[i].as_mut().expect("live").update(&buf[start..start + k]);
+                allocs += o.a;
+                if !o.p.is_empty() && panic.is_empty() {
+                    panic = o.p;
+                }
+                done += k as u64;
+            }
+        }
+        let pl = self.g(i).processed_len();
+        let st = state_json(&self.g(i).export());
+        let w64 = |x: u64| -> String { format!("[{},{}]", x >> 16, x & 0xffff) };
+        self.out.emit(
+            Ev::new("gen_update_p")
+                .num("g", i as i64)
+                .bytes("pat", pat)
+                .raw("off", &w64(off % (1u64 << 32)))
+                .raw("n", &w64(n))
+                .boolean("one_slice", one_slice)
+                .raw("st", &st)
+                .raw("plen", &opt_wide_json(pl.v.unwrap_or(None)))
+                .meas(allocs + pl.a, &panic),
+        );
+    }
+}
+
+/// C11 (thorough): a real stream past 4 GiB with state exports at the marks,
+/// and a single slice of more than 4 GiB.
+pub fn run_c11big(out: &mut Out, rng: &mut Rng, only: Option<&str>, giant_slice: bool, marks_stream: bool) {
+    const MAX: u64 = 4_224_281_216;
+    for v in VARIANTS.iter() {
+        if only.map_or(false, |o| o != v.name()) {
+            continue;
+        }
+        let mut s = Session::new(out, *v);
+        let pat = rng.bytes(61);
+        if marks_stream {
+            s.new_gen(0);
+            let marks: [u64; 7] = [1000, MAX - 8, MAX, MAX + 1, (1u64 << 32) - 5, 1u64 << 32, (1u64 << 32) + 16];
+            let mut pos = 0u64;
+            for m in marks {
+                s.update_periodic(0, &pat, pos, m - pos, rng, false);
+                pos = m;
+                s.fin(0);
+            }
+        }
+        if giant_slice && !marks_stream {
+            // quick tier: one slice of 2^32 + 445 bytes only
+            s.new_gen(1);
+            s.update_periodic(1, &[0u8], 0, (1u64 << 32) + 445, rng, true);
+            s.fin(1);
+        } else if giant_slice {
+            // one update() call with more than 2^32 bytes (all zero: lazily mapped pages)
+            s.new_gen(1);
+            s.update_periodic(1, &[0u8], 0, (1u64 << 32) + 445, rng, true);
+            s.fin(1);
+            s.new_gen(2);
+            s.update(2, &[0u8; 1000]);
+            s.update_periodic(2, &[0u8], 1000, 1u64 << 32, rng, true);
+            s.fin(2);
         }
     }
 }
